@@ -266,6 +266,18 @@ def translate(repo):
     p, r, b = find_fn(psync, 'open_inode', 'src/passthrough/sync_io.rs')
     nb = norm(b)
     t['open_inode_gate'] = bool(re.match(r'let data = self\.inode_map\.get\(inode\)\?; if !is_safe_inode\(data\.mode\) \{ Err\(ebadf\(\)\) \} else \{', nb))
+    # C05: the parent's descriptor is obtained (data.get_file() / dir.get_file()) before set_creds() in the four
+    # creating methods (with inode_file_handles it is open_by_handle_at, which the caller's credentials may not do)
+    order = {}
+    for fn in ('mkdir', 'mknod', 'symlink', 'create'):
+        ms = [m for m in re.finditer(r'\bfn\s+%s\s*\(' % fn, psync)]
+        if len(ms) != 1: raise TranslateError('src/passthrough/sync_io.rs: expected one fn %s' % fn)
+        b0 = psync.find('{', match_close(psync, ms[0].end() - 1, '(', ')'))
+        body = norm(psync[b0:match_close(psync, b0)])
+        g = body.find('.get_file()'); c = body.find('set_creds(')
+        if g < 0 or c < 0: raise TranslateError('fn %s: get_file()/set_creds() not found' % fn)
+        order[fn] = g < c
+    t['descriptor_before_set_creds'] = order
     t['shapes'] = shapes
     vsync = read(repo, 'src/api/vfs/sync_io.rs')
     t['vfs'] = parse_impl(vsync, r'\bimpl\s+FileSystem\s+for\s+Vfs\s*\{', 'impl FileSystem for Vfs')
@@ -287,6 +299,8 @@ def emit_coq(t):
         o.append('Definition shape_%s : bool := %s.' % (k, coq_bool(t['shapes'].get(k, False))))
     for k in ('lookup_dotdot_rewrite', 'lookup_uses_open_file_and_handle', 'path_fd_flags_o_path', 'open_inode_gate'):
         o.append('Definition shape_%s : bool := %s.' % (k, coq_bool(t[k])))
+    o.append('(* is the parent descriptor obtained before set_creds() in mkdir/mknod/symlink/create? *)')
+    o.append('Definition shape_descriptor_before_set_creds : bool := %s.' % coq_bool(all(t['descriptor_before_set_creds'].values())))
     o.append('')
     o.append('Inductive vkind := VFull | VFullIfStandalone | VSlash.')
     o.append('(* one validation: argument name, kind, statement position *)')
